@@ -241,6 +241,60 @@ Arguments e_body {R} e.
 Arguments pk_cur {R} p.
 Arguments pk_gen {R} p.
 
+(* ---------- how Write feeds the chunk's sink (gzip writer / write buffer) ----------
+   chunk.go Write: `compressor.Write(data)` / `writeBuffer.Write(data)` - every record goes to the sink at once
+   ([FeedDirect]), whatever its length.  [FeedStaged cap flush_first] are variants of the mechanism with a batch
+   buffer of [cap] bytes in front of the sink: records shorter than [cap] wait there (the buffer is handed over
+   when the next record does not fit any more and in FinalizeChunk), a record of [cap] bytes or more goes
+   straight to the sink - after handing over what waits ([flush_first = true]) or not ([false], the variant
+   refuted in Props/C11.v).  The sink is a streaming writer: what it holds is the concatenation of what it was
+   given, in that order. *)
+Section Feed.
+Variable R : Type.
+Variable rlen : R -> Z.
+
+Inductive feed_mode := FeedDirect | FeedStaged (cap : Z) (flush_first : bool).
+
+Record feed := {
+  fd_sink : list R;         (* what the sink has received, in order *)
+  fd_pending : list R;      (* records waiting in the batch buffer *)
+  fd_pending_len : Z        (* len(pending) *)
+}.
+
+Definition feed_init : feed := {| fd_sink := []; fd_pending := []; fd_pending_len := 0 |}.
+
+(* hand the batch buffer over to the sink *)
+Definition feed_flush (f : feed) : feed :=
+  {| fd_sink := fd_sink f ++ fd_pending f; fd_pending := []; fd_pending_len := 0 |}.
+
+Definition feed_sink_write (f : feed) (r : R) : feed :=
+  {| fd_sink := fd_sink f ++ [r]; fd_pending := fd_pending f; fd_pending_len := fd_pending_len f |}.
+
+(* Write *)
+Definition feed_write (m : feed_mode) (f : feed) (r : R) : feed :=
+  match m with
+  | FeedDirect => feed_sink_write f r
+  | FeedStaged cap flush_first =>
+      if rlen r >=? cap then feed_sink_write (if flush_first then feed_flush f else f) r
+      else
+        let f1 := if fd_pending_len f + rlen r >? cap then feed_flush f else f in
+        {| fd_sink := fd_sink f1; fd_pending := fd_pending f1 ++ [r];
+           fd_pending_len := fd_pending_len f1 + rlen r |}
+  end.
+
+Fixpoint feed_run (m : feed_mode) (f : feed) (rs : list R) : feed :=
+  match rs with
+  | [] => f
+  | r :: rs' => feed_run m (feed_write m f r) rs'
+  end.
+
+(* FinalizeChunk: what the sink holds when it is closed *)
+Definition feed_close (f : feed) : list R := fd_sink (feed_flush f).
+
+Definition feed_all (m : feed_mode) (rs : list R) : list R := feed_close (feed_run m feed_init rs).
+End Feed.
+
+
 (* ===================== correspondence entry point =====================
 
    kind 0  packer, literal streams
@@ -460,6 +514,71 @@ Definition run_two_makers (c : case) : bytes :=
   [116; 119; 111; 58]%N ++
   join semicolon (merge_outs zs (map (item_bytes cfgA plen idsA) outsA) (map (item_bytes cfgB plen idsB) outsB)).
 
+(* ---- kind 8: as kind 1 in the packed modes (targets 1, 2), the record of op i is a run of the letter
+   'a' + i mod 26; the payload field is "<length>=<letter>x<run>+<letter>x<run>..." = the run-length form of
+   what Write fed to the sink, in feed order (adjacent runs of one letter merged, empty records invisible) ---- *)
+Fixpoint ops_lettered (i : nat) (zs : list Z) : list (op (Z * Z)) :=
+  match zs with
+  | [] => []
+  | z :: zs' =>
+      if z <? 0 then OFlush :: ops_lettered (S i) zs'
+      else OWrite (model_now i) (97 + Z.of_nat (i mod 26), z) :: ops_lettered (S i) zs'
+  end.
+
+Fixpoint piece_recs {R} (l : list (piece R)) : list R :=
+  match l with
+  | [] => []
+  | PRec r :: l' => r :: piece_recs l'
+  | _ :: l' => piece_recs l'
+  end.
+
+Fixpoint run_lengths (cur : option (Z * Z)) (rs : list (Z * Z)) : list (Z * Z) :=
+  match rs with
+  | [] => opt_list cur
+  | (f, n) :: rs' =>
+      if n <=? 0 then run_lengths cur rs'
+      else match cur with
+           | Some (cf, cn) =>
+               if cf =? f then run_lengths (Some (cf, cn + n)) rs'
+               else (cf, cn) :: run_lengths (Some (f, n)) rs'
+           | None => run_lengths (Some (f, n)) rs'
+           end
+  end.
+
+Definition payload_lettered (body : list (piece (Z * Z))) : bytes :=
+  dec_of_Z (pieces_len (Z * Z) snd body) ++ 61%N ::
+  join 43%N (map (fun fn => dec_of_Z (fst fn) ++ 120%N :: dec_of_Z (snd fn))
+                 (run_lengths None (feed_all (Z * Z) snd FeedDirect (piece_recs body)))).
+
+Definition run_packer_lettered (c : case) : bytes :=
+  let target := zarg c 0 in
+  if negb ((target =? 1) || (target =? 2)) then bad_case_output else
+  let cfg := target_config target (zarg c 1) (zarg c 2) (sarg c 0) in
+  let frozen := zarg c 3 in
+  let ops := ops_lettered 0 (skipn 4 (c_zargs c)) ++ [OFlush] in
+  let (_, outs) := run_trace (Z * Z) snd cfg (start_state frozen) ops in
+  str_ok_colon ++ items_of cfg frozen payload_lettered outs.
+
+(* ---- kind 9: Datadog, records produced by the output's REAL serializer from field values carried by the case
+   (sargs = tag :: one message per written record); no byte limit (zarg 2 must be 0), so the chunking depends
+   on the record limit and the flushes only; zargs as in kind 0 (op 0 = FlushBuffer, 1 = WriteStream(next record)).
+   The payload field is the number of records in the chunk's JSON array. ---- *)
+Fixpoint ops_counted (i : nat) (zs : list Z) : list (op Z) :=
+  match zs with
+  | [] => []
+  | z :: zs' =>
+      if z =? 0 then OFlush :: ops_counted (S i) zs'
+      else OWrite (model_now i) 1 :: ops_counted (S i) zs'
+  end.
+
+Definition run_packer_counted (c : case) : bytes :=
+  if negb ((zarg c 0 =? 3) && (zarg c 2 =? 0)) then bad_case_output else
+  let cfg := target_config 3 (zarg c 1) 0 (sarg c 0) in
+  let frozen := zarg c 3 in
+  let ops := ops_counted 0 (skipn 4 (c_zargs c)) ++ [OFlush] in
+  let (_, outs) := run_trace Z (fun n => n) cfg (start_state frozen) ops in
+  str_ok_colon ++ items_of cfg frozen (fun body => dec_of_Z (Z.of_nat (length (piece_recs body)))) outs.
+
 Definition run_case_C11 (c : case) : bytes :=
   match c_kind c with
   | 0%N => run_packer_literal c
@@ -470,5 +589,7 @@ Definition run_case_C11 (c : case) : bytes :=
   | 5%N => run_idgen_clock c
   | 6%N => run_packer_clocked c
   | 7%N => run_two_makers c
+  | 8%N => run_packer_lettered c
+  | 9%N => run_packer_counted c
   | _ => bad_case_output
   end.
